@@ -263,12 +263,20 @@ def update_connectivity(
     elif primary_dimension not in connectivity.dims:
         raise ValueError("Connectivity variable does not contain primary dimension")
 
+    # The fill value is recorded in the encoding of the new variable.
+    # A dataset opened with mask_and_scale=False (or made in memory)
+    # has its old _FillValue in the attributes, which would clash.
+    attrs = {
+        key: value for key, value in connectivity.attrs.items()
+        if key != '_FillValue'
+    }
+
     return _masked_integer_data_array(
         data=values,
         fill_value=fill_value,
         dims=connectivity.dims,
         name=connectivity.name,
-        attrs=connectivity.attrs,
+        attrs=attrs,
     )
 
 
